@@ -308,7 +308,7 @@ func main() {
 		return
 	}
 	r := report.New("C17", tier, "model_checking")
-	r.Rule = "E1: every structure tree of the five WKT-encodable types with 1..3 members and 1..3(4) vertices per member x every rotation of 19 finite float64 patterns (full product for points, each pattern repeated on consecutive vertices, and every ordered pattern pair alternating between neighbouring vertices in the same ordinate): the text must be accepted by an independent recursive-descent parser of the OGC WKT grammar and parse to the same type, nesting and bit-identical coordinates; the bytes returned by Encode unchanged by later Encode calls (two- and three-call histories); geometries of 63..1000 members / vertices; MultiPoint, GeometryCollection and *Bounds must be rejected with an error. Non-trivial = geometries with >= 2 members."
+	r.Rule = "E1: every structure tree of the five WKT-encodable types with 1..3 members and 1..3(4) vertices per member x every rotation of 19 finite float64 patterns (full product for points, each pattern repeated on consecutive vertices, and every ordered pattern pair alternating between neighbouring vertices in the same ordinate): the text must be accepted by an independent recursive-descent parser of the OGC WKT grammar and parse to the same type, nesting and bit-identical coordinates; the bytes returned by Encode unchanged by later Encode calls (two- and three-call histories); geometries of 63..5000 members / vertices; MultiPoint, GeometryCollection and *Bounds must be rejected with an error. Non-trivial = geometries with >= 2 members."
 	cfg := geomgen.Config{MaxMembers: 3, Lens: []int{1, 2, 3}, FlatMax: 3, PolyRings: 2}
 	if tier == "thorough" {
 		cfg = geomgen.Config{MaxMembers: 3, Lens: []int{1, 2, 3, 4}, FlatMax: 5, PolyRings: 3}
@@ -423,7 +423,7 @@ func main() {
 	// many members: counts around 64 and beyond (a decoder or encoder may switch
 	// strategy with the size)
 	for _, kind := range []geomgen.Kind{geomgen.KLineString, geomgen.KMultiLineString, geomgen.KPolygon, geomgen.KMultiPolygon} {
-		for _, sz := range []int{63, 64, 65, 100, 257, 1000} {
+		for _, sz := range []int{63, 64, 65, 100, 257, 1000, 4095, 4096, 4097, 5000} {
 			c := Case{Skel: geomgen.Skel{Kind: kind}, Rot: sz % 19, Many: sz}
 			n++
 			nontrivial++
